@@ -135,12 +135,13 @@ pub fn to_ts_ident(ident: &Ident) -> String {
 
 /// Convert an arbitrary name to a valid Typescript field name.
 ///
-/// If the name contains special characters or if its first character
-/// is a number it will be wrapped in quotes.
+/// If the name is empty, contains special characters or if its first character
+/// is a number it will be written as a string literal.
 pub fn raw_name_to_ts_field(value: String) -> String {
-    let valid_chars = value
-        .chars()
-        .all(|c| c.is_alphanumeric() || c == '_' || c == '$');
+    let valid_chars = !value.is_empty()
+        && value
+            .chars()
+            .all(|c| c.is_alphanumeric() || c == '_' || c == '$');
 
     let does_not_start_with_digit = value
         .chars()
@@ -152,7 +153,8 @@ pub fn raw_name_to_ts_field(value: String) -> String {
     if valid {
         value
     } else {
-        format!(r#""{value}""#)
+        // `{:?}` writes a string literal, escaping quotes, backslashes and control characters
+        format!("{value:?}")
     }
 }
 
